@@ -124,6 +124,12 @@ def run(ctx):
         for fn in ("year", "month", "day", "dow"):
             argvs.append(["name, %s(%s) from t" % (fn, bd)])
             argvs.append(["name from t where %s(%s) = 1" % (fn, bd)])
+    # well-formed ordered queries with a limit below the number of rows: whatever order the rows arrive in (bfs, dfs, several
+    # roots, ties, keys met in decreasing order) the bounded buffer must not abort
+    for key in ("name", "size", "path", "ext", "name desc", "size desc, name", "length(name)", "modified", "is_dir, name desc", "1"):
+        for lim in (1, 2, 3, 5):
+            for tail in ("t", "t dfs", "t/sub, t", "t, t/sub", "t depth 1"):
+                argvs.append(["name, size from %s order by %s limit %d" % (tail, key, lim)])
     for extra in (["-c"], ["-i"] * 0 + ["--config"], ["-c", "nonexistent.toml", "name", "from", "t"], [""], [" "], ["'"], ['"unterminated'], ["name", "into"], ["name", "limit"],
                   ["name from t order by 0"], ["name from t order by 2"], ["name from t order by desc"], ["name from t group by"], ["name from t where size =< 3"], ["/"], ["*", "/", "name"],
                   ["(" * 200 + "name"], ["lower(" * 150 + "name" + ")" * 150 + " from t"], ["asc " * 500 + "name from t"],
@@ -191,6 +197,6 @@ def run(ctx):
             ctx.notes.append("%s: witness no longer fails (status %s); update KNOWN_FINDINGS.json" % (kid, cls))
     ctx.coverage.update(
         evaluations=len(vectors) + len(argvs), distinct_nontrivial=len(st["distinct"]), traces_validated_against_impl=st["agreed"],
-        rule="argument vectors: valid queries from a typed grammar rendered as one argument and split at random whitespace with random letter case, token soups of 1-12 tokens over keywords/operators/brackets/quotes/numbers/globs/paths, single-token deletions, duplications, transpositions and character mutations of valid queries (%s); every scalar function with ill-typed, missing and out-of-range arguments in the select list, in WHERE and in ORDER BY; every column kind with uninterpretable literals; date literals with an impossible time of day or calendar day against date columns, as BETWEEN bounds and as arguments of YEAR / MONTH / DAY / DOW; arithmetic (+ - * / %% mod div) over boundary operands - whole-number and fractional zero divisors written as literals or coming from an empty file, i64 extremes, text - as a column, in WHERE and as an ORDER BY key; option edge cases. (1) real lexer+parser (harness) vs the Gallina model: outcome class, error message and the whole AST; (2) the binary against a non-empty tree: status in {0,1,2} within 10 s, no panic text, a parse-time rejection prints no row, status 2 comes with a diagnostic. non-trivial = a vector rejected with status 2" % dict(kinds),
+        rule="argument vectors: valid queries from a typed grammar rendered as one argument and split at random whitespace with random letter case, token soups of 1-12 tokens over keywords/operators/brackets/quotes/numbers/globs/paths, single-token deletions, duplications, transpositions and character mutations of valid queries (%s); every scalar function with ill-typed, missing and out-of-range arguments in the select list, in WHERE and in ORDER BY; every column kind with uninterpretable literals; date literals with an impossible time of day or calendar day against date columns, as BETWEEN bounds and as arguments of YEAR / MONTH / DAY / DOW; arithmetic (+ - * / %% mod div) over boundary operands - whole-number and fractional zero divisors written as literals or coming from an empty file, i64 extremes, text - as a column, in WHERE and as an ORDER BY key; ORDER BY x LIMIT n over every arrival order the tree offers (bfs, dfs, two roots in both orders); option edge cases. (1) real lexer+parser (harness) vs the Gallina model: outcome class, error message and the whole AST; (2) the binary against a non-empty tree: status in {0,1,2} within 10 s, no panic text, a parse-time rejection prints no row, status 2 comes with a diagnostic. non-trivial = a vector rejected with status 2" % dict(kinds),
         samples=st["samples"], distribution=dict(st["hist"]))
     return ctx.finish(trusted=["the machine stack is not modelled: inputs nested thousands of levels deep overflow the real stack (recorded finding) while the model's fuel is linear in the token count"])
